@@ -55,6 +55,10 @@ def run_case(case):
                 obj = PeriodicSaveCondition(case["ivl"] / TICK)
         except Exception as e:  # noqa: BLE001
             return {"ctor_error": type(e).__name__, "segs": [list(seg)]}
+        # the caller goes on using ITS list (empties it, puts something else in): the callbacks registered with the
+        # scheduler are still registered, nothing else is
+        lst.clear()
+        lst.append(make_cb(999, 0))
         segs.append(list(seg)); seg.clear()
         if kind == "cond":
             for _ in range(case["calls"]):
